@@ -117,13 +117,20 @@ func (m *Mast) Delete(ctx context.Context, key, value interface{}) error {
 		return fmt.Errorf("savePathForRoot: %w", err)
 	}
 	m.size--
-	for m.size < m.shrinkBelowSize && m.height > 0 {
+	for m.height > 0 && (m.size <= m.shrinkBelowSize || m.topNodeIsEntryless()) {
 		err = m.shrink(ctx)
 		if err != nil {
 			return fmt.Errorf("shrink: %w", err)
 		}
 	}
 	return nil
+}
+
+// topNodeIsEntryless tells whether the in-memory top node holds no entry, i.e.
+// no key of the tree has a layer as high as the current height.
+func (m *Mast) topNodeIsEntryless() bool {
+	node, ok := m.root.(*mastNode)
+	return ok && len(node.Key) == 0
 }
 
 func findEntry(ctx context.Context, m *Mast, key, value interface{}, options *findOptions) (*mastNode, int, error) {
